@@ -16,7 +16,7 @@ pub static mut F64_VALUE: f64 = 0.0;
 pub static mut F32_VALUE: f32 = 0.0;
 pub static mut PARSE_CALLS: u32 = 0;
 
-fn int_from_i128<N>(v: i128) -> N {
+pub fn int_from_i128<N>(v: i128) -> N {
     let mut out = core::mem::MaybeUninit::<N>::uninit();
     let src = v.to_le_bytes();
     let p = out.as_mut_ptr() as *mut u8;
@@ -114,4 +114,33 @@ pub fn stub_parse_f<N: lexical_core::FromLexical>(_bytes: &[u8]) -> lexical_core
             _ => Err(LexError::Empty(0)),
         }
     }
+}
+
+/// Assumed contract of `lexical_core::parse_partial::<isize>` (observed behaviour of 0.8):
+/// consumes an optional sign and the maximal run of decimal digits; with no digit it reports
+/// `Ok((0, 0))` (e.g. `parse_partial(b"!2") == Ok((0, 0))`); the value is the decimal value,
+/// `Err(Overflow)` beyond the type.
+pub fn stub_parse_partial<N: lexical_core::FromLexical>(bytes: &[u8]) -> lexical_core::Result<(N, usize)> {
+    let mut i = 0;
+    let mut neg = false;
+    if i < bytes.len() && (bytes[i] == b'+' || bytes[i] == b'-') {
+        neg = bytes[i] == b'-';
+        i += 1;
+    }
+    let start = i;
+    let mut v: i128 = 0;
+    while i < bytes.len() && bytes[i] >= b'0' && bytes[i] <= b'9' {
+        if v < 1_000_000_000_000_000_000_000 {
+            v = v * 10 + (bytes[i] - b'0') as i128;
+        }
+        i += 1;
+    }
+    if i == start {
+        return Ok((int_from_i128::<N>(0), 0));
+    }
+    let v = if neg { -v } else { v };
+    if v > isize::MAX as i128 || v < isize::MIN as i128 {
+        return Err(LexError::Overflow(0));
+    }
+    Ok((int_from_i128::<N>(v), i))
 }
